@@ -172,10 +172,22 @@ def run(case):
         refuse = "no output shape available"
     before = (np.array(cube.data, copy=True), dict(cube.meta), cube.unit)
     try:
-        out = cube.reproject_to(target, **kw)
+        if case["crpix_seed"] % 4 == 1:
+            # the documented parameters in their documented order, given positionally
+            tags.append("positional")
+            out = cube.reproject_to(target, kw["algorithm"], kw.get("shape_out"), kw["return_footprint"])
+        else:
+            out = cube.reproject_to(target, **kw)
         fp = None
+        from ndcube import NDCube as _NDCube
+        shape_bad = None
         if case["footprint"]:
-            out, fp = out
+            if not (isinstance(out, tuple) and len(out) == 2):
+                shape_bad = f"return_footprint=True returned a {type(out).__name__}, not (cube, footprint)"
+            else:
+                out, fp = out
+        if shape_bad is None and not isinstance(out, _NDCube):
+            shape_bad = f"the call returned a {type(out).__name__}{' of length ' + str(len(out)) if isinstance(out, tuple) else ''}, not a cube"
         status = "ok"
     except Exception as e:
         status = err_kind(e)
@@ -183,11 +195,13 @@ def run(case):
         msg = f"{type(e).__name__}: {str(e)[:120]}"
     if refuse:
         if status == "ok":
-            fails.append(f"request should be refused ({refuse}) but returned a cube of shape {out.data.shape}")
+            fails.append(f"request should be refused ({refuse}) but returned {('a cube of shape ' + str(out.data.shape)) if hasattr(out, 'data') else type(out).__name__}")
         elif status != "ValueError":
             fails.append(f"ill-posed request ({refuse}) raised {msg}")
     elif status != "ok":
         fails.append(f"well-posed request raised {msg}")
+    elif shape_bad:
+        fails.append(shape_bad)
     else:
         got = np.asarray(out.data, dtype=float)
         if tuple(got.shape) != tuple(out_shape):
@@ -239,7 +253,7 @@ def run(case):
         if not (np.array_equal(before[0], np.asarray(cube.data)) and before[1] == cube.meta and before[2] == cube.unit):
             fails.append("the source cube changed")
         res["obs_vals"] = got.tolist() if case["kind"] in ("same", "shift") and case["algo"] == "interpolation" else None
-    res["obs"] = {"status": status, "shape": None if status != "ok" else list(np.asarray(out.data).shape)}
+    res["obs"] = {"status": status, "shape": None if (status != "ok" or not hasattr(out, "data")) else list(np.asarray(out.data).shape)}
     res["model_req"] = {"op": "reproject", "algo": case["algo"], "srcTypes": src_types, "tgtTypes": tgt_types,
                         "tgtPixDim": nd, "tgtWorldDim": nd, "tgtCelestialOnly": cel_only,
                         "shapeOut": list(out_shape) if case["shape_out"] in ("explicit", "other", "override", "explicit_only") else None,
